@@ -1,0 +1,5 @@
+//go:build !verif
+
+package connection
+
+func verifAt(string, interface{}) {}
